@@ -244,27 +244,33 @@ def run_shard(tag, idx, groups, gidx, variant, trace_module, trace_cfg, workdir,
     shutil.rmtree(sdir, ignore_errors=True)
     os.makedirs(sdir)
     scen = os.path.join(sdir, "scenario.ndjson")
-    owner = []  # command index -> group index
-    with open(scen, "w") as f:
-        for gi in gidx:
-            g = groups[gi]
-            f.write(json.dumps({"op": "reset", "meta": {"group": gi, "name": g.get("name", "")}}) + "\n")
-            owner.append(gi)
-            for c in g["cmds"]:
-                f.write(json.dumps(c) + "\n")
-                owner.append(gi)
     trace = os.path.join(sdir, "trace.ndjson")
-    env = dict(os.environ)
-    env["VERIF_SEED"] = str(seed_int())
+    prerecorded = all("events" in groups[gi] for gi in gidx)
     t0 = time.time()
-    try:
-        p = subprocess.run([variant.binary, scen, trace, str(seed_int())], env=env, stdout=subprocess.PIPE,
-                           stderr=subprocess.STDOUT, timeout=harness_timeout)
-    except subprocess.TimeoutExpired:
-        raise ToolError("harness timeout in shard %d" % idx)
+    if prerecorded:
+        # groups recorded by another recorder (e.g. the lms-demo command line program): events as they are
+        with open(trace, "w") as f:
+            for gi in gidx:
+                f.write(json.dumps({"ev": "reset", "meta": {"group": gi, "name": groups[gi].get("name", "")}}) + "\n")
+                for e in groups[gi]["events"]:
+                    f.write(json.dumps(e) + "\n")
+    else:
+        with open(scen, "w") as f:
+            for gi in gidx:
+                g = groups[gi]
+                f.write(json.dumps({"op": "reset", "meta": {"group": gi, "name": g.get("name", "")}}) + "\n")
+                for c in g["cmds"]:
+                    f.write(json.dumps(c) + "\n")
+        env = dict(os.environ)
+        env["VERIF_SEED"] = str(seed_int())
+        try:
+            p = subprocess.run([variant.binary, scen, trace, str(seed_int())], env=env, stdout=subprocess.PIPE,
+                               stderr=subprocess.STDOUT, timeout=harness_timeout)
+        except subprocess.TimeoutExpired:
+            raise ToolError("harness timeout in shard %d" % idx)
+        if p.returncode not in (0, 3):
+            raise ToolError("harness failed in shard %d: %s" % (idx, p.stdout.decode(errors="replace")[-2000:]))
     t_h = time.time() - t0
-    if p.returncode not in (0, 3):
-        raise ToolError("harness failed in shard %d: %s" % (idx, p.stdout.decode(errors="replace")[-2000:]))
     events = [json.loads(x) for x in open(trace)]
     # map events to groups through the reset markers
     ev_group = []
